@@ -32,10 +32,7 @@ def rd32(b, off=0):
 
 
 def bytesum(data):
-    t = 0
-    for x in bytes(data):
-        t += x
-    return t
+    return sum(bytes(data))
 
 
 def limbs(v):
